@@ -5,6 +5,11 @@ import json, os
 HERE = os.path.dirname(os.path.dirname(os.path.abspath(__file__)))
 
 CHECKS = {
+ "C04": dict(
+    design="DESIGN.md §3 C04",
+    technique="property-based testing with type-directed mutation of generated valid requests (Hypothesis); oracle: declared-type walk of everything the recording user function received, Client-family fault otherwise",
+    text="Exploration: valid requests from the C01/C02/C03 generators are mutated type-directedly - xsi:type retagging of any element with any class key of the interface (prefix bound, unbound or shadowed) under XmlDocument/Soap11/Soap12 x validator None/soft/lxml; JSON-kind swaps at any node, wrapper-key renames and wrong-arity positional lists under JSON/YAML/MessagePack/msgpack-rpc (soft); scalar-vs-object path confusions, duplicate keys and garbage values under HttpRpc (soft). Whenever the function runs, every argument and nested member must be None, of the declared native type, of a registered subclass of the declared class, or a list of such; otherwise the reply must be a Client-family fault and nothing may escape. Held on everything explored; not a proof.",
+    note="Trusted: the native-type table in pbt/props/c04.py (NATIVE) and the spec-driven walk type_violation()."),
  "C17": dict(
     design="DESIGN.md §3 C17",
     technique="structure-aware fuzzing / property-based testing: attack constructs enumerated at every text and attribute position with Hypothesis-drawn parameters; oracles: strace (open/openat/connect) with per-subprocess control calibration, canary tokens, loop-back listener, rusage bounds",
